@@ -3,7 +3,7 @@ package main
 // corpus/C03/*.c03 : hand-written edge cases and minimised past findings, run
 // first.  One step per line:
 //
-//   nonce A n | data A keyhex valhex | del A keyhex | code A len | bal A n |
+//   nonce A n | data A keyhex valhex | del A keyhex | code A len | codehex A hex | bal A n |
 //   addbal A n | suicide A | iroot | snap | revert | ft A name n
 //   commit [fail=k] [die] [retry]        -- state.Commit(true) + trieDB.Commit(root)
 //   big                                   -- use large values from here on
@@ -108,6 +108,13 @@ func (r *runner) runCorpus(dir string) {
 				for i := range c {
 					c[i] = byte(i*7 + n)
 				}
+				adb.SetCode(a, c)
+				w.codes[crypto.Keccak256Hash(c)] = true
+				touched[a] = true
+			case "codehex": // codehex A hex : SetCode with the given bytes
+				open()
+				a := corpusAddr(f[1])
+				c, _ := hx.UnHex(f[2])
 				adb.SetCode(a, c)
 				w.codes[crypto.Keccak256Hash(c)] = true
 				touched[a] = true
